@@ -79,6 +79,20 @@ func rereadCSV(b []byte, comma rune) ([]string, [][]string, error) {
 	return all[0], all[1:], nil
 }
 
+// rereadCSVVar reads a CSV whose records have different numbers of fields.
+func rereadCSVVar(b []byte) ([]string, [][]string, error) {
+	r := csv.NewReader(bytes.NewReader(b))
+	r.FieldsPerRecord = -1
+	all, err := r.ReadAll()
+	if err != nil {
+		return nil, nil, err
+	}
+	if len(all) == 0 {
+		return nil, nil, fmt.Errorf("empty csv")
+	}
+	return all[0], all[1:], nil
+}
+
 type rowHashes struct {
 	PK  string `json:"pk"`
 	Row string `json:"row"`
